@@ -59,6 +59,8 @@ def run(chk: Check) -> int:
         col.add(I.rerun(doc), name)
     n = 600 if chk.quick else 8000
     for k in range(n):
+        if col.enough():
+            break
         rng = chk.rng("case", k)
         col.add(I.run_case(random_fault_spec(rng, not chk.quick), I.RandomSched(rng)), f"seed{chk.seed}/{k}")
     # exhaustive fault plans: every assignment of success/failure to the first retries+2 evaluations of
@@ -73,12 +75,16 @@ def run(chk: Check) -> int:
         keys = [f"{pt}:{att}" for pt in range(T) for att in range(1, R + 3)]
         cnt = 0
         for bits in itertools.product((False, True), repeat=len(keys)):
+            if col.enough():
+                break
             faults = {k: True for k, b in zip(keys, bits) if b}
             spec = fault_spec(kind, nt, T, R, rz, faults)
-            for rec in I.enumerate_scheds(lambda s, spec=spec: I.run_case(spec, s), orders="sub", cancel=False):
+            for rec in I.enumerate_scheds(lambda s, spec=spec: I.run_case(spec, s), orders="sub", cancel=False, limit=20000):
                 cnt += 1
                 col.add(rec, f"exhaustive {kind} ntasks={nt} points={T} retries={R} raise={rz} faults={sorted(faults)} #{cnt}",
                         coq=(cnt % (1 if chk.quick else 3) == 0))
+                if rec.machinery or col.enough():
+                    break
         exh[f"{kind} ntasks={nt} points={T} retries={R} raise={rz}"] = cnt
     col.flush()
     st = col.stats
